@@ -15,6 +15,15 @@ space "raw": `{% raw %}` sections - opening tag plain / `{%- raw`, `raw -%}`, bo
     x what precedes the end tag x end tag with the same whitespace control x what follows (nothing, newline, text, ...)
     x what precedes the section x the 8 whitespace-option combinations x {LF, CRLF}.
 
+space "history": [<=2 earlier templates ; ordinary template] compiled one after the other in one process - the earlier
+    templates ("events") are refused by the lexer (unterminated raw / block / variable / comment, bad character or string),
+    refused by the parser (unknown tag, missing / mismatched / stray end tag, bad expression), fail while rendering,
+    render, or are token streams abandoned after k tokens, each with and without the auto-indent marker; x 13 ordinary
+    templates (first text chunk with one / several / blank / indented lines, tag first, raw first, include, empty) x the
+    5 flag sets x {LF, CRLF} x {same Environment, new Environment with equal options (same memoised lexer), new
+    Environment with other options}.  Every chain of histories runs in a forked child; the ordinary template must render
+    as stock renders it, whatever was compiled before.
+
 Demand (the property's first sentence): same text, or failure where stock fails; and - as fixed by the coordinator - the
 same parser-visible token stream wherever stock lexes and renders the template.
 """
